@@ -24,7 +24,15 @@ type vchan struct {
 type sendWait struct {
 	t    *task
 	v    value
-	done bool
+	done bool     // value was taken by a receiver (or moved into the buffer)
+	dead bool     // registration withdrawn (its select completed through another case)
+	sel  *selWait // non-nil when registered by a select's send case
+	idx  int      // case index within that select
+}
+
+// selWait is the state of a task parked in a select.
+type selWait struct {
+	chosen int // index of the send case completed by a receiver while parked, -1 if none
 }
 
 type spawnedCall struct {
@@ -119,7 +127,7 @@ func (i *interpreter) recvReady(ch *vchan) bool {
 		return true
 	}
 	for _, s := range ch.sendq {
-		if !s.done {
+		if !s.done && !s.dead && (s.sel == nil || s.sel.chosen < 0) {
 			return true
 		}
 	}
@@ -171,11 +179,36 @@ func (i *interpreter) selectOp(fr *frame, instr *ssa.Select) value {
 				panic(i.wouldBlock("select"))
 			}
 			var chans []*vchan
-			for _, st := range instr.States {
-				chans = append(chans, fr.get(st.Chan).(*vchan))
+			sel := &selWait{chosen: -1}
+			var regs []*sendWait
+			for k, st := range instr.States {
+				ch := fr.get(st.Chan).(*vchan)
+				chans = append(chans, ch)
+				if st.Dir != types.RecvOnly && ch != nil {
+					// as the Go runtime does, a parked select's send case sits in the channel's send queue:
+					// a receiver completes it directly, without the sender having to be scheduled
+					w := &sendWait{t: i.curTask, v: copyVal(fr.get(st.Send)), sel: sel, idx: k}
+					ch.sendq = append(ch.sendq, w)
+					regs = append(regs, w)
+				}
 			}
-			i.sched.parkSelect(chans, instr)
+			i.sched.parkSelectSel(chans, instr, sel)
+			for _, w := range regs {
+				if !w.done {
+					w.dead = true
+				}
+			}
+			if sel.chosen >= 0 {
+				r := tuple{sel.chosen, false}
+				for _, st := range instr.States {
+					if st.Dir == types.RecvOnly {
+						r = append(r, zero(st.Chan.Type().Underlying().(*types.Chan).Elem()))
+					}
+				}
+				return r
+			}
 			continue
+
 		}
 		r := tuple{chosen, false}
 		for k, st := range instr.States {
